@@ -1130,23 +1130,17 @@ theorem where_of_frag (fp : FP) (part : Part) (rows : List Row) (hlen : part.len
     | exact b hp ht hd hn hv =>
       simp [whereFilter, hp, ht, hd, hn] at h
       refine ⟨b, ?_, filterRows_of_truth fp.i2f e rows b (fun r hr => truth_of_exact _ _ _ _ (hv r hr))⟩
-      split at h
-      · cases h
-      · cases h; rw [filter_apply]; rfl
+      rw [← h, filter_apply]; rfl
     | nullable b p hp ht hd hn hv =>
       simp [whereFilter, hp, ht, hd, hn] at h
       refine ⟨fun r => b r && p r, ?_, filterRows_of_truth fp.i2f e rows _ hv⟩
-      split at h
-      · cases h
-      · cases h; rw [filter_apply]; simp [cellsTrue, zipWith_map_map]
+      rw [← h, filter_apply]; simp [cellsTrue, zipWith_map_map]
     | nullTyped hp ht hv =>
       simp [whereFilter, hp, ht] at h
       refine ⟨fun _ => false, ?_, filterRows_of_truth fp.i2f e rows _ hv⟩
-      split at h
-      · cases h
-      · cases h; rw [idxTrue_all_false]
+      rw [h, idxTrue_all_false]
 
-/-! ### no panic inside the fragment (except the executor's shared-literal panic) -/
+/-! ### no panic inside the fragment -/
 
 theorem atom_compiles (fp : FP) (part : Part) (rows : List Row) (hlen : part.len = rows.length) (e : Expr)
     (ha : Atom fp part rows e) : ∃ out, compile fp part e = .ok out := by
@@ -1225,9 +1219,10 @@ theorem compile_no_panic (fp : FP) (part : Part) (rows : List Row) (hlen : part.
     · rename_i e' he; intro h; cases h; exact ih he
     · exact notNode_no_panic _
 
-/-- Inside the fragment the engine model panics only through the executor's shared-string-literal defect. -/
-theorem panic_only_shared (fp : FP) (part : Part) (rows : List Row) (hlen : part.len = rows.length) (e : Expr)
-    (hf : Frag fp part rows e) (h : implFilter fp part e = .error .panic) : sharedStrLiteral part e = true := by
+/-- Inside the fragment the engine model never panics. -/
+theorem frag_no_panic (fp : FP) (part : Part) (rows : List Row) (hlen : part.len = rows.length) (e : Expr)
+    (hf : Frag fp part rows e) : implFilter fp part e ≠ .error .panic := by
+  intro h
   unfold implFilter at h
   split at h
   · rename_i err herr; cases h; exact absurd herr (compile_no_panic fp part rows hlen e hf)
@@ -1240,10 +1235,6 @@ theorem panic_only_shared (fp : FP) (part : Part) (rows : List Row) (hlen : part
       | exact b hp ht hd hn hv => simp [whereFilter, ht, hd] at hw
       | nullable b p hp ht hd hn hv => simp [whereFilter, ht, hd] at hw
       | nullTyped hp ht hv => simp [whereFilter, ht] at hw
-    · split at h
-      · cases h
-      · split at h
-        · rename_i hs; exact hs
-        · cases h
+    · split at h <;> cases h
 
 end LM.C03W
